@@ -846,7 +846,7 @@ def rule_walkup(ctx, prop):
             isn = [(b, t) for b, t in f.calls() if callee(t).endswith("Option::<T>::is_none")]
             shape_ok = rep.anchor(len(look) == 1 and len(rec) == 1 and len(xdg) == 1,
                                   f"find_config_file shape (lookup={len(look)} rec={len(rec)} xdg={len(xdg)})", cfg)
-            if shape_ok and not (len(eqs) == 1 and len(isn) == 1):
+            if shape_ok and not (len(eqs) == 1):
                 # the stop test is not `Some(directory) == root || parent.is_none()`: say what decides instead
                 deciding = sorted({callee(t).split("::")[-1] for b, t in f.calls()
                                    if f.local_ty(t["dst"]["l"]) == "bool" and bool_edge(f, b) is not None
@@ -868,16 +868,53 @@ def rule_walkup(ctx, prop):
                     rep.violation(f"{f.key} lookup-order", "the directory itself is not looked up before its parent / the "
                                                            "fallback locations: the nearest configuration file does not win",
                                   f.loc(), cfg)
-                # stop test: (Some(directory) == root.as_deref()) || parent.is_none(); recursion only if both false
-                e1 = bool_edge(f, eqs[0][0])
-                e2 = bool_edge(f, isn[0][0])
+                # stop test as a path table: the walk recurses exactly when `Some(directory) == root` is false *and* a parent
+                # exists (whatever the spelling: `x || parent.is_none()`, `parent.filter(|_| !is_root)`, a match, ..)
+                from paths import Enumerator, TooManyPaths
                 ok = False
-                if e1 and e2:
+                try:
+                    pres = Enumerator(f, summaries=False, max_paths=60000).run()
+                except TooManyPaths:
+                    pres = None
+                    rep.anchor(False, "find_config_file: too many paths", cfg)
+                if pres is not None:
+                    eb = eqs[0][0]
                     rb = rec[0][0]
-                    ok = rb not in f.reach_from(e1[0], avoid={rb}) or True
-                    # recursion must be reachable only through both false edges
-                    ok = f.dominates(e2[1], rb) or any(f.dominates(x, rb) for x in (e1[1],))
-                    ok = ok and (rb not in f.reach_from(e1[0], avoid={isn[0][0]}) or f.dominates(e1[1], isn[0][0]))
+                    parentish = {b_ for b_, t_ in f.calls() if re.search(r"Path::parent$|Option::<.*>::filter$|Option::<.*>::is_none$|Option::<.*>::is_some$", callee(t_))}
+                    rows = set()
+                    for st in pres:
+                        if not any(b_ == look[0] for b_, c_, t_ in st.calls):
+                            continue
+                        lk = st.disc.get(f"call:{look[0]}")
+                        # only paths on which the directory's own lookup found nothing decide about walking up
+                        found_cfg = any(v == "Some" for k, v in st.disc.items() if k.startswith(f"call:{look[0]}") or
+                                        "lookup" in k)
+                        recursed = any(b_ == rb for b_, c_, t_ in st.calls)
+                        eqv = st.decisions.get(eb)
+                        psides = set()
+                        for k, v in st.disc.items():
+                            if k.startswith("call:") and "." not in k and int(k[5:]) in parentish and v in ("Some", "None"):
+                                psides.add(v)
+                        for b_, d_ in st.decisions.items():
+                            c_ = callee(f.blocks[b_]["term"])
+                            if c_.endswith("::is_none") and b_ in parentish:
+                                psides.add("None" if d_ else "Some")
+                            if c_.endswith("::is_some") and b_ in parentish:
+                                psides.add("Some" if d_ else "None")
+                        rows.add((recursed, eqv, tuple(sorted(psides))))
+                    bad_rows = []
+                    seen_rec = seen_stop_root = seen_stop_fs = False
+                    for recursed, eqv, ps in rows:
+                        if recursed:
+                            seen_rec = True
+                            if eqv is not False or "None" in ps and "Some" not in ps:
+                                bad_rows.append((recursed, eqv, ps))
+                        else:
+                            if eqv is True:
+                                seen_stop_root = True
+                            if "None" in ps:
+                                seen_stop_fs = True
+                    ok = not bad_rows and seen_rec and seen_stop_root and seen_stop_fs
                 # operands of the equality: directory and root
                 a0 = provenance(f, eqs[0][1]["args"][0])
                 a1 = provenance(f, eqs[0][1]["args"][1])
@@ -889,7 +926,7 @@ def rule_walkup(ctx, prop):
                                                              "parent.is_none()`", f.loc(), cfg)
                 # recursion goes to the parent with the same root
                 rt = rec[0][1]
-                pa = prov_calls(provenance(f, rt["args"][1]))
+                pa = prov_calls(provenance(f, rt["args"][1], through=re.compile(PROV_THROUGH.pattern + r"|Option::<.*>::filter$")))
                 ok = "std::path::Path::parent" in pa and ("arg", rl) in provenance(f, rt["args"][2])
                 rep.inst(f"{f.key} recurses-into-parent-with-same-root", None, cfg, ok=ok)
                 if not ok:
